@@ -160,6 +160,16 @@ CHECKS['C19'] = dict(
     note='Trusted as for C01; translator T3 (harness/meta2lean.py).',
     design='7 (C19), 4.1 T3')
 
+CHECKS['C20'] = dict(
+    technique='renaming metamorphic correspondence against the real generator with adversarial name lists derived from the emitted module and the runtime text on every run; Lean theorems C01/C10 fix the reference behaviour, in whose model identifiers of generated code do not exist (rules are indices, class/field names opaque labels)',
+    text=('PARTIAL. The Lean model has no Python identifiers: rules are indices and class/field names are labels that gen/peg only copy into results, so the reference behaviour is name-independent by construction '
+          '(C01_codegen_refines_peg, C10_span_exact). What can break the property lives in the emitted Python text, and is decided by correspondence: grammar families with rules, classes, templates, fields, parameters and let variables; '
+          'every slot is renamed, one at a time and all at once (injectively), into random identifiers, names shaped like the temporaries the emitted module really uses, names of locals of generated/runtime functions, '
+          'builtins read by the runtime text or the generated functions, and expression-constructor names; values (names mapped back), positions and error classes must equal those under the neutral naming. '
+          'Open known findings: names equal to a builtin that the runtime/generated code reads (module level and local).'),
+    note='Trusted as for C01; the name lists are derived by ast from the emitted source and the runtime text.',
+    design='7 (C20)')
+
 NOT_YET = {
 }
 
